@@ -194,6 +194,13 @@ func terminates(list []ast.Stmt) bool {
 	switch s := list[len(list)-1].(type) {
 	case *ast.ReturnStmt:
 		return true
+	case *ast.ExprStmt:
+		if c, ok := s.X.(*ast.CallExpr); ok {
+			if id, ok := c.Fun.(*ast.Ident); ok && id.Name == "panic" {
+				return true
+			}
+		}
+		return false
 	case *ast.BranchStmt:
 		return s.Tok == token.CONTINUE || s.Tok == token.BREAK
 	case *ast.BlockStmt:
@@ -288,6 +295,10 @@ func (fc *fctx) assigned(list []ast.Stmt) []*types.Var {
 				}
 			case *ast.IncDecStmt:
 				mark(x.X)
+			case *ast.CallExpr:
+				if q, _ := fc.callee(x); q == "rand.Read" {
+					mark(x.Args[0])
+				}
 			case *ast.UnaryExpr:
 				if x.Op == token.AND {
 					if id, ok := x.X.(*ast.Ident); ok && t.kindOf(t.info.TypeOf(id)) == kSuite {
@@ -407,7 +418,11 @@ func (fc *fctx) block(list []ast.Stmt, k konts) string {
 		t.info.Types[fake] = types.TypeAndValue{Type: fc.typeOf(s.X)}
 		return fc.store(s.X, fc.expr(fake)) + restK()
 	case *ast.ExprStmt:
-		return fc.exprStmt(s) + restK()
+		es := fc.exprStmt(s)
+		if strings.HasSuffix(es, "\x02") {
+			return strings.TrimSuffix(es, "\x02") // panic(...): nothing after it runs
+		}
+		return es + restK()
 	case *ast.DeferStmt:
 		q, _ := fc.callee(s.Call)
 		if q == "(sync.Pool).Put" {
@@ -555,6 +570,20 @@ func (fc *fctx) store(lhs ast.Expr, val string) string {
 	case *ast.SelectorExpr:
 		id, ok := l.X.(*ast.Ident)
 		k := fc.kind(l.X)
+		if ok && k == kInput {
+			v := t.info.ObjectOf(id).(*types.Var)
+			name := fc.varName(v)
+			var parts []string
+			for _, f := range fieldProj["OCRAInput"] {
+				pf := strings.Split(f, ":")
+				if pf[0] == l.Sel.Name {
+					parts = append(parts, val)
+				} else {
+					parts = append(parts, "("+pf[1]+" "+name+")")
+				}
+			}
+			return fc.flush() + "let " + name + " := mkInput " + strings.Join(parts, " ") + " in\n  "
+		}
 		if ok && (k == kSuite || k == kSuitePtr) {
 			v := t.info.ObjectOf(id).(*types.Var)
 			if v.Parent() == t.pkg.Types.Scope() {
@@ -633,6 +662,22 @@ func (fc *fctx) assign(s *ast.AssignStmt) string {
 			if !ok {
 				t.fail(s, "tuple assignment from %T", s.Rhs[0])
 			}
+			if q, _ := fc.callee(c); q == "rand.Read" {
+				// fills its argument from the random source (an oracle parameter)
+				fc.pools["junk_rand"] = true
+				pre := fc.store(c.Args[0], "(rand_fill "+fc.expr(c.Args[0])+" junk_rand)")
+				v = "(zlen " + fc.expr(c.Args[0]) + ", @None err)"
+				var pats []string
+				for _, l := range s.Lhs {
+					id := l.(*ast.Ident)
+					if id.Name == "_" {
+						pats = append(pats, "_")
+					} else {
+						pats = append(pats, fc.varName(t.info.ObjectOf(id).(*types.Var)))
+					}
+				}
+				return pre + "let '(" + strings.Join(pats, ", ") + ") := " + v + " in\n  "
+			}
 			v = fc.call(c, len(s.Lhs))
 		}
 		var pats []string
@@ -682,6 +727,8 @@ func (fc *fctx) exprStmt(s *ast.ExprStmt) string {
 	}
 	q, _ := fc.callee(c)
 	switch q {
+	case "builtin.panic":
+		return fc.flush() + "Pnc (* panic(...) *) \x02"
 	case "builtin.copy":
 		return fc.store(c.Args[0], "(copy_into "+fc.expr(c.Args[0])+" "+fc.expr(c.Args[1])+")")
 	case "(binary.bigEndian).PutUint64":
